@@ -193,6 +193,9 @@ package electreIII
 //@ func getDistillationFunc
 //@   property C20 C05
 //@   ensures [nonneg_distillation] result != nil && nonnegOnUnit(*result)
+//@   ensures [as_requested_zero_for_an_omitted_coefficient] "electreDistillation" in dm.MethodParameters ==>
+//@             result.A == (decoded_has(dm.MethodParameters["electreDistillation"], "A") ? decoded_real(dm.MethodParameters["electreDistillation"], "A") : 0.0)
+//@             && result.B == (decoded_has(dm.MethodParameters["electreDistillation"], "B") ? decoded_real(dm.MethodParameters["electreDistillation"], "B") : 0.0)
 
 // rank / distillate are not under contract (recursion through closures); their callers must hand them a distillation function
 // that is non-negative on [0,1] - the precondition of the termination argument
